@@ -140,6 +140,7 @@ type RStep struct {
 	HoldSink bool `json:"holdsink,omitempty"` // like hold, but the handler is parked inside the accounting sink, before the record is formatted
 	Hold     bool `json:"hold,omitempty"`     // park this request's handler at its first logger call while the following steps of OTHER connections run
 	Pws      []BS `json:"pws,omitempty"`      // passwords carried by this step (labels for C18)
+	CKey     BS   `json:"ckey,omitempty"`     // the key THE CLIENT obfuscates with (default: whatever key the server bound the connection to)
 }
 type RConn struct {
 	C    int    `json:"c"`
@@ -637,14 +638,18 @@ func (r *refRun) feed0(st *refConnState, s *RStep, i int) bool {
 	n := len(body)
 	hdr := []byte{ver, byte(ty), byte(s.Seq), byte(s.Fl), byte(sid >> 24), byte(sid >> 16), byte(sid >> 8), byte(sid), byte(n >> 24), byte(n >> 16), byte(n >> 8), byte(n)}
 	wire := body
+	ck := st.key
+	if len(s.CKey) > 0 {
+		ck = []byte(s.CKey)
+	}
 	if s.Fl&1 == 0 {
-		wire = obfuscate(st.key, sid, ver, byte(s.Seq), body)
+		wire = obfuscate(ck, sid, ver, byte(s.Seq), body)
 	}
 	pws := [][]int{}
 	for _, p := range s.Pws {
 		pws = append(pws, B(p))
 	}
-	r.rec.Emit(E{"e": "feed", "c": st.c, "i": i, "h": B(hdr), "b": B(wire), "cb": B(body), "sk": B(st.key), "pws": pws})
+	r.rec.Emit(E{"e": "feed", "c": st.c, "i": i, "h": B(hdr), "b": B(wire), "cb": B(body), "sk": B(st.key), "ck": B(ck), "pws": pws})
 	st.conn.Feed(append(append([]byte{}, hdr...), wire...))
 	if s.Hold || s.HoldSink {
 		return false // the caller waits for the gate, not for quiescence
